@@ -1,6 +1,6 @@
 /-
   C15 / C17 — bodies whose pieces are text runs, ARBITRARY print commands and block comments, at byte level:
-  the LEXER half of the combination of C17d's `body_source_spec_cmds` (text runs + `BPiece.cmd`: any print
+  the combination (lexer AND parser) of C17d's `body_source_spec_cmds` (text runs + `BPiece.cmd`: any print
   command that is `CmdOk`) and C15c's `body_source_spec_comments` (text runs + `{$ident}` + `/*c*/`).
 
   * `XPiece` / `XBody`: `text t` (C15c's `textOK`), `cmd arg dirs` (C17d's print commands, written as
@@ -12,10 +12,19 @@
     command behind it, from ANY lexer record in `lexText`) and C15c's `cmt_run` (a text run and a comment behind
     it), bridged by `holds_of_inpAt`.
 
-  NOT in this file: the parser half as a whole (the RawText nodes with the trim flags of `joinLines` next to a comment,
-  the print nodes modulo positions).  Its three comment steps over C17d's position-free token view `At st.p tks` are
-  proved in the last section (`skip_run`, `textOrTag_skip`, `textOrTag_textG`); the list induction over the pieces (with
-  the pending run of comment tokens as an accumulator) and `body_source_spec_cmds_comments` are not.
+  * the PARSER half: `tksOfX` (the position-free tokens, `itemsOfX_tk`), `NodesMatchX tb nl b` (the node list modulo
+    positions: per text piece `t` that the lexer does not drop and that does not normalise to nothing
+    `RawText (joinLines t tb ta)` with `tb` = the piece directly before is a comment and `ta` = the piece directly after is
+    one — the trim flags of `joinLines` next to a comment; per command its print node with expression, directive names
+    and arguments modulo positions; nothing per comment).  `parse_xbody` is the list induction over the pieces with the
+    pending run of Comment tokens `cs` as an accumulator (flag of `NodesMatchX` = `!cs.isEmpty`); each round is
+    `head_run` (`next` + `skipComments` over `cs`, from `skip_run`) followed by `textOrTag_until` (EOF),
+    `textOrTag_skip'` + C17c's `textOrTag_print` (a command) or `textOrTag_textG` (a text token).
+  * **`body_source_spec_cmds_comments`** (proved, full statement): for every `WFX` body whose commands are `CmdCanon`,
+    `lexAll (srcOfX ff b) false = .items (itemsOfX ff 0 b)` and `parseSource pf (srcOfX ff b) = .ok nl` with
+    `NodesMatchX false nl b`.  Example `xexBody_spec`.
+
+  Still modulo positions (as in C17d): `NodesMatchX` does not state the `pos` fields of the RawText / print nodes.
 -/
 import SoyVerif.Props.C17d
 
@@ -164,8 +173,8 @@ theorem lexAll_xbody (b : XBody) (h : WFX ff b) : lexAll (srcOfX ff b) false = .
 end
 /-! ## parser steps for comments over the position-free view `At st.p tks` (C17d's view)
 
-  The three steps the parser half needs, proved; the list induction (`tksOfX`, `NodesMatchX`,
-  `body_source_spec_cmds_comments`) is NOT done.  `textOrTag` computes `seenComment` from the token it is handed
+  The three steps the parser half needs; the list induction (`parse_xbody`) is in the next section.  `textOrTag`
+  computes `seenComment` from the token it is handed
   and then calls `skipComments`; everything behind that depends on the token `skipComments` returns, and on
   `seenComment` only in the Text branch.  So:
   * `skip_run`: `skipComments` over a run of Comment tokens;
@@ -259,6 +268,304 @@ theorem textOrTag_textG (ef fuel : Nat) (untl : List ItemType) (hu : untl.contai
   by_cases hj : (joinLines t.val (tok0.typ == ItemType.tComment) (nx.typ == ItemType.tComment)).isEmpty = true
   · rw [if_pos hj, if_pos hj]; rfl
   · rw [if_neg hj, if_neg hj]; rfl
+
+
+/-- `textOrTag_skip` without the hypothesis on the token handed in (it is not used): whatever `skipComments` returns, if
+    it is neither Comment nor Text, `textOrTag` goes on as if handed that token -/
+theorem textOrTag_skip' (ef fuel : Nat) (untl : List ItemType) (c0 n : Item) (st st1 : FState)
+    (hsk : skipComments (fuel + 1) c0 st = .ok (n, st1)) (hn : n.typ ≠ .tComment) (hnt : n.typ ≠ .tText) :
+    textOrTag pf ef (fuel + 2) c0 untl st = textOrTag pf ef (fuel + 2) n untl st1 := by
+  have hnt' : (n.typ == ItemType.tText) = false := by simpa using hnt
+  conv => lhs; unfold textOrTag
+  conv => rhs; unfold textOrTag
+  simp only
+  rw [fbind_ok hsk, fbind_ok (skipComments_id fuel n st1 hn)]
+  simp only [hnt', Bool.false_eq_true, if_false]
+
+/-- `skipComments` returns an until token: `textOrTag` halts -/
+theorem textOrTag_until (ef fuel : Nat) (untl : List ItemType) (tok0 n : Item) (st0 st1 : FState)
+    (hsk : skipComments (fuel + 1) tok0 st0 = .ok (n, st1)) (hu : untl.contains n.typ = true) :
+    textOrTag pf ef (fuel + 2) tok0 untl st0 = .ok ((none, true), st1) := by
+  unfold textOrTag
+  simp only
+  rw [fbind_ok hsk]
+  simp only [hu, if_true]
+  rfl
+
+/-- the head of a round of `itemList`: `next` reads `tok0` — the first of the pending comment tokens `cs`, or `nx` itself
+    if there is none — and `skipComments` returns `nx` -/
+theorem head_run (cs : List Tk) (hcs : ∀ c ∈ cs, c.typ = .tComment) (nx : Tk) (hnx : nx.typ ≠ .tComment) (s : List Tk)
+    (f : Nat) (st : FState) (hst : At st.p (cs ++ nx :: s)) :
+    ∃ tok0 p0 n p', FileParser.next st = .ok (tok0, { st with p := p0 }) ∧
+      skipComments (f + cs.length + 2) tok0 { st with p := p0 } = .ok (n, { st with p := p' }) ∧
+      (tok0.typ == .tComment) = !cs.isEmpty ∧ n.typ = nx.typ ∧ n.val = nx.val ∧ Just p' n s := by
+  cases cs with
+  | nil =>
+    obtain ⟨n, p1, hn, hty, hv, hj1⟩ := fnext_at (st := st) hst
+    refine ⟨n, p1, n, p1, hn, skipComments_id (f + 0 + 1) n _ (by rw [hty]; exact hnx), ?_, hty, hv, hj1⟩
+    have : (n.typ == ItemType.tComment) = false := by rw [hty]; simpa using hnx
+    rw [this]; rfl
+  | cons c cs' =>
+    obtain ⟨c0, p1, hn, hty, hv, hj1⟩ := fnext_at (st := st) hst
+    have hc0 : c0.typ = .tComment := by rw [hty]; exact hcs c (by simp)
+    obtain ⟨m, p2, hs, a, b, d⟩ := skip_run cs' (fun x hx => hcs x (by simp [hx])) c0 hc0 nx s hnx (f + 1) { st with p := p1 } hj1
+    refine ⟨c0, p1, m, p2, hn, ?_, by simp [hc0], a, b, d⟩
+    have e : f + (c :: cs').length + 2 = f + 1 + cs'.length + 2 := by simp; omega
+    rw [e]; exact hs
+
+end
+
+/-! ## the list induction: `itemList(itemEOF)` on the tokens of a body with comments -/
+
+section
+open SoyVerif.Model.FileParser (FState FP Node NodeList textOrTag itemListLoop skipComments parseFile parseSource)
+open SoyVerif.Spec (joinLines)
+open SoyVerif.Props.C15c (ctextNodes toList_append)
+variable (ff : UInt64 → Bytes) (pf : Bytes → Option UInt64)
+
+/-- the tokens of a body, position-free -/
+def tksOfX : XBody → List Tk
+  | [] => [⟨.tEOF, []⟩]
+  | .text t :: r => textTk t ++ tksOfX r
+  | .cmd a d :: r => ⟨.tLeftDelim, [123]⟩ :: (unsp (piecesBody ff a d) ++ tRD :: tksOfX r)
+  | .cmt c :: r => ⟨.tComment, cmtSrc c⟩ :: tksOfX r
+
+theorem itemsOfX_tk : ∀ (b : XBody) (q : Nat), (itemsOfX ff q b).map Item.tk = tksOfX ff b
+  | [], _ => rfl
+  | .text t :: r, q => by simp [itemsOfX, tksOfX, textItem_tk, itemsOfX_tk r]
+  | .cmd a d :: r, q => by simp [itemsOfX, tksOfX, tagItems, emitT_tk, itemsOfX_tk r, Item.tk, tRD]
+  | .cmt c :: r, q => by simp [itemsOfX, tksOfX, itemsOfX_tk r, Item.tk]
+
+/-- the piece at the head of `r` is a comment -/
+def nextIsCmt (r : XBody) : Bool :=
+  match r.head? with
+  | some p => p.isCmt
+  | none => false
+
+/-- every print command of the body is canonical (what the expression parser returns) -/
+def CanonX : XBody → Prop
+  | [] => True
+  | .text _ :: r => CanonX r
+  | .cmd a d :: r => CmdCanon ff pf a d ∧ CanonX r
+  | .cmt _ :: r => CanonX r
+
+/-- the node list of a body, MODULO POSITIONS; the flag = the piece directly before is a comment.  Per text piece `t` the
+    RawText node of `joinLines t tb ta` (`tb` = the piece directly before is a comment, `ta` = the piece directly after is
+    one; no node if the lexer drops the piece or the text normalises to nothing), per print command its print node,
+    nothing per comment -/
+def NodesMatchX : Bool → List Node → XBody → Prop
+  | _, nl, [] => nl = []
+  | tb, nl, .text t :: r => ∃ p rest, nl = ctextNodes t p tb (nextIsCmt r) ++ rest ∧ NodesMatchX false rest r
+  | _, nl, .cmd a d :: r => ∃ pos e' ds' rest, nl = Node.print pos e' ds' :: rest ∧ erase e' = erase a ∧
+      ds'.map eraseDir = d.map eraseDir ∧ NodesMatchX false rest r
+  | _, nl, .cmt _ :: r => NodesMatchX true nl r
+
+/-- the fuel side conditions of every print command of the body -/
+def FuelX (ef G : Nat) : XBody → Prop
+  | [] => True
+  | .text _ :: r => FuelX ef G r
+  | .cmd a d :: r => (ExprFuel ff ef a d ∧ (∀ x ∈ d, x.args.length + d.length + 1 < G) ∧ d.length < G) ∧ FuelX ef G r
+  | .cmt _ :: r => FuelX ef G r
+
+theorem tksX_head (r : XBody) (h : ∀ p ∈ r.head?, p.isText = false) :
+    ∃ nx s, tksOfX ff r = nx :: s ∧ nx.typ ≠ .tText ∧ (nx.typ == .tComment) = nextIsCmt r := by
+  match r, h with
+  | [], _ => exact ⟨_, _, rfl, by simp, by simp [nextIsCmt]⟩
+  | .cmd a d :: r, _ => exact ⟨_, _, rfl, by simp, by simp [nextIsCmt, XPiece.isCmt]⟩
+  | .cmt c :: r, _ => exact ⟨_, _, rfl, by simp, by simp [nextIsCmt, XPiece.isCmt]⟩
+  | .text t :: r, h => have := h (.text t) (by simp); simp [XPiece.isText] at this
+
+theorem nodesMatchX_flag (tb : Bool) (nl : List Node) (r : XBody) (h : ∀ p ∈ r.head?, p.isText = false)
+    (hm : NodesMatchX tb nl r) : NodesMatchX false nl r := by
+  match r, h, hm with
+  | [], _, hm => exact hm
+  | .cmd a d :: r, _, hm => exact hm
+  | .cmt c :: r, _, hm => exact hm
+  | .text t :: r, h, _ => have := h (.text t) (by simp); simp [XPiece.isText] at this
+
+theorem fuelX_of_len : ∀ (b : XBody) (n : Nat), (tksOfX ff b).length ≤ n → FuelX ff (8 * n + 64) (2 * n + 2) b
+  | [], _, _ => trivial
+  | .text t :: r, n, h => fuelX_of_len r n (by simp [tksOfX] at h; omega)
+  | .cmt c :: r, n, h => fuelX_of_len r n (by simp [tksOfX] at h; omega)
+  | .cmd a d :: r, n, h => by
+    simp only [tksOfX, List.length_cons, List.length_append] at h
+    obtain ⟨f1, f2, f3⟩ := fuel_ok ff a d n (by omega)
+    exact ⟨⟨⟨by have := f1.1; omega, fun x hx y hy => by have := f1.2 x hx y hy; omega⟩, f2, f3⟩,
+      fuelX_of_len r n (by omega)⟩
+
+variable (T : TableOK)
+include T
+
+/-- **parser.**  `itemList(itemEOF)` on the tokens of a well-formed body, `cs` = the Comment tokens pending in front -/
+theorem parse_xbody (ef G : Nat) : ∀ (b : XBody), WFX ff b → CanonX ff pf b → FuelX ff ef G b →
+    ∀ (cs : List Tk), (∀ c ∈ cs, c.typ = .tComment) →
+    ∀ (F : Nat) (lpos : Option Nat) (nodes : NodeList) (st : FState), At st.p (cs ++ tksOfX ff b) →
+    G + (cs.length + (tksOfX ff b).length) + 3 ≤ F →
+    ∃ lp nl st' tail, itemListLoop pf ef F [.tEOF] lpos nodes st = .ok (.list lp nl, st') ∧
+      nl.toList = nodes.toList ++ tail ∧ NodesMatchX (!cs.isEmpty) tail b
+  | [], _, _, _, cs, hcs, F, lpos, nodes, st, hst, hF => by
+    simp only [tksOfX, List.length_cons, List.length_nil] at hF
+    obtain ⟨f, rfl⟩ : ∃ f, F = f + cs.length + 1 + 3 := ⟨F - cs.length - 4, by omega⟩
+    obtain ⟨tok0, p0, n, p', hn0, hsk, hsc, hty, hv, hj⟩ := head_run cs hcs ⟨.tEOF, []⟩ (by simp) [] f st hst
+    have hun := textOrTag_until pf ef (f + cs.length + 1) [.tEOF] tok0 n _ _ hsk (by rw [hty]; rfl)
+    refine ⟨lpos.getD tok0.pos, nodes, { st with p := p' }, [], ?_, by simp, rfl⟩
+    unfold itemListLoop
+    rw [fbind_ok hn0]
+    simp only
+    rw [fbind_ok hun]
+    rfl
+  | .cmt c :: r, hwf, hcan, hfu, cs, hcs, F, lpos, nodes, st, hst, hF => by
+    have e : cs ++ tksOfX ff (.cmt c :: r) = (cs ++ [⟨.tComment, cmtSrc c⟩]) ++ tksOfX ff r := by simp [tksOfX]
+    rw [e] at hst
+    obtain ⟨lp, nl, st', tail, hr, hnl, hm⟩ := parse_xbody ef G r hwf.2 hcan hfu (cs ++ [⟨.tComment, cmtSrc c⟩])
+      (by intro x hx
+          rcases List.mem_append.mp hx with hx | hx
+          · exact hcs x hx
+          · simp at hx; rw [hx]) F lpos nodes st hst (by simp [tksOfX] at hF ⊢; omega)
+    refine ⟨lp, nl, st', tail, hr, hnl, ?_⟩
+    have : (!(cs ++ [(⟨.tComment, cmtSrc c⟩ : Tk)]).isEmpty) = true := by cases cs <;> rfl
+    rw [this] at hm
+    exact hm
+  | .cmd a d :: r, hwf, hcan, hfu, cs, hcs, F, lpos, nodes, st, hst, hF => by
+    simp only [tksOfX, List.length_cons, List.length_append] at hF
+    obtain ⟨f, rfl⟩ : ∃ f, F = f + cs.length + 1 + 3 := ⟨F - cs.length - 4, by omega⟩
+    obtain ⟨tok0, p0, n, p', hn0, hsk, hsc, hty, hv, hj⟩ := head_run cs hcs ⟨.tLeftDelim, [123]⟩ (by simp) _ f st hst
+    have hty' : n.typ = .tLeftDelim := hty
+    have hsw := textOrTag_skip' pf ef (f + cs.length + 1) [.tEOF] tok0 n _ _ hsk (by rw [hty']; decide) (by rw [hty']; decide)
+    obtain ⟨pos, e', ds', p2, hto, he, hd, ha⟩ := textOrTag_print ff pf T a d hcan.1 ef (f + cs.length + 1) hfu.1.1
+      (fun x hx => by have := hfu.1.2.1 x hx; omega) (by have := hfu.1.2.2; omega) [.tEOF] (by decide) (by decide)
+      n hty' (tksOfX ff r) { st with p := p' } hj.at
+    have hto' := hsw.trans hto
+    obtain ⟨lp, nl, st', tail, hr, hnl, hm⟩ := parse_xbody ef G r hwf.2 hcan.2 hfu.2 [] (by simp) (f + cs.length + 1 + 2)
+      (some (lpos.getD tok0.pos)) (nodes.append (.cons (Node.print pos e' ds') .nil)) { st with p := p2 } ha (by simp; omega)
+    refine ⟨lp, nl, st', Node.print pos e' ds' :: tail, ?_, ?_, pos, e', ds', tail, rfl, he, hd, hm⟩
+    · unfold itemListLoop
+      rw [fbind_ok hn0]
+      simp only
+      rw [fbind_ok hto']
+      simp only [Bool.false_eq_true, if_false]
+      exact hr
+    · rw [hnl, toList_append]
+      simp [NodeList.toList]
+  | .text t :: r, hwf, hcan, hfu, cs, hcs, F, lpos, nodes, st, hst, hF => by
+    have hhead : ∀ p ∈ r.head?, p.isText = false := fun p hp => (hwf.2.1 p hp).1
+    obtain ⟨nx, s, hnx, h1, h2⟩ := tksX_head ff r hhead
+    by_cases hd : 0 < t.length ∧ dropped t = false
+    · have htk : textTk t = [⟨.tText, t⟩] := by simp [textTk, hd]
+      simp only [tksOfX, htk, hnx, List.length_cons, List.length_append, List.cons_append, List.nil_append] at hst hF
+      obtain ⟨f, rfl⟩ : ∃ f, F = f + cs.length + 1 + 3 := ⟨F - cs.length - 4, by omega⟩
+      obtain ⟨tok0, p0, n, p', hn0, hsk, hsc, hty, hv, hj⟩ := head_run cs hcs ⟨.tText, t⟩ (by simp) (nx :: s) f st hst
+      have hty' : n.typ = .tText := hty
+      have hv' : n.val = t := hv
+      obtain ⟨p2, hto, ha2⟩ := textOrTag_textG pf ef (f + cs.length + 1) [.tEOF] (by decide) tok0 n hty' _ _ hsk nx h1 s hj.at
+      rw [hsc, h2, hv'] at hto
+      rw [← hnx] at ha2
+      by_cases hjl : (joinLines t (!cs.isEmpty) (nextIsCmt r)).isEmpty = true
+      · rw [if_pos hjl] at hto
+        obtain ⟨lp, nl, st', tail, hr, hnl, hm⟩ := parse_xbody ef G r hwf.2.2 hcan hfu [] (by simp) (f + cs.length + 1 + 2)
+          (some (lpos.getD tok0.pos)) nodes { st with p := p2 } ha2 (by rw [hnx]; simp; omega)
+        refine ⟨lp, nl, st', tail, ?_, hnl, 0, tail, ?_, hm⟩
+        · unfold itemListLoop
+          rw [fbind_ok hn0]
+          simp only
+          rw [fbind_ok hto]
+          simp only [Bool.false_eq_true, if_false]
+          exact hr
+        · simp [ctextNodes, hjl]
+      · rw [if_neg hjl] at hto
+        obtain ⟨lp, nl, st', tail, hr, hnl, hm⟩ := parse_xbody ef G r hwf.2.2 hcan hfu [] (by simp) (f + cs.length + 1 + 2)
+          (some (lpos.getD tok0.pos)) (nodes.append (.cons (.rawText n.pos (joinLines t (!cs.isEmpty) (nextIsCmt r))) .nil))
+          { st with p := p2 } ha2 (by rw [hnx]; simp; omega)
+        refine ⟨lp, nl, st', Node.rawText n.pos (joinLines t (!cs.isEmpty) (nextIsCmt r)) :: tail, ?_, ?_, n.pos, tail, ?_, hm⟩
+        · unfold itemListLoop
+          rw [fbind_ok hn0]
+          simp only
+          rw [fbind_ok hto]
+          simp only [Bool.false_eq_true, if_false]
+          exact hr
+        · rw [hnl, toList_append]
+          simp [NodeList.toList]
+        · have hjl' : (joinLines t (!cs.isEmpty) (nextIsCmt r)).isEmpty = false := by simpa using hjl
+          simp [ctextNodes, hjl', hd.2]
+    · have htk : textTk t = [] := by simp [textTk, hd]
+      have hdr : dropped t = true := by
+        have := hwf.1.1
+        simpa [this] using hd
+      simp only [tksOfX, htk, List.nil_append] at hst hF
+      obtain ⟨lp, nl, st', tail, hr, hnl, hm⟩ := parse_xbody ef G r hwf.2.2 hcan hfu cs hcs F lpos nodes st hst hF
+      refine ⟨lp, nl, st', tail, hr, hnl, 0, tail, ?_, nodesMatchX_flag _ _ r hhead hm⟩
+      simp [ctextNodes, hdr]
+
+end
+
+section
+open SoyVerif.Model.FileParser (Node NodeList parseFile parseSource)
+variable (ff : UInt64 → Bytes) (pf : Bytes → Option UInt64) (LT : LexTableOK) (T : TableOK)
+include LT T
+
+/-- **`body_source_spec_cmds_comments`** — C17d's `body_source_spec_cmds` and C15c's `body_source_spec_comments` combined.
+    For every well-formed body `b` (`WFX`: text pieces that are `textOK`, never adjacent, not ending with `/` directly before
+    a comment; print commands that are `CmdOk` and `CmdCanon`; block comments `/*c*/` that are `cmtOK`), `parse.SoyFile` on
+    the source text `srcOfX ff b`:
+
+    * the lexer sends exactly `itemsOfX ff 0 b`, every item at its exact END offset;
+    * the parser returns, in source order and modulo positions (`NodesMatchX`): for every text piece `t` that is not dropped
+      and does not normalise to nothing `RawText (joinLines t tb ta)` with `tb` = the piece directly before is a comment,
+      `ta` = the piece directly after is a comment; for every command its print node (expression, directive names and
+      arguments modulo positions); nothing for a comment. -/
+theorem body_source_spec_cmds_comments (b : XBody) (hw : WFX ff b) (hc : CanonX ff pf b) :
+    lexAll (srcOfX ff b) false = .items (itemsOfX ff 0 b) ∧
+      ∃ nl, parseSource pf (srcOfX ff b) = .ok nl ∧ NodesMatchX false nl b := by
+  have hl := lexAll_xbody ff LT b hw
+  refine ⟨hl, ?_⟩
+  have hlen : (tksOfX ff b).length = (itemsOfX ff 0 b).length := by rw [← itemsOfX_tk ff b 0]; simp
+  have hfu := fuelX_of_len ff b (itemsOfX ff 0 b).length (by omega)
+  have hst0 := at_init (itemsOfX ff 0 b)
+  rw [itemsOfX_tk] at hst0
+  obtain ⟨lp, nl, st', tail, hr, hnl, hm⟩ := parse_xbody ff pf T (8 * (itemsOfX ff 0 b).length + 64)
+    (2 * (itemsOfX ff 0 b).length + 2) b hw hc hfu [] (by simp) (8 * (itemsOfX ff 0 b).length + 64) none .nil
+    { p := initState (itemsOfX ff 0 b) } hst0 (by simp; omega)
+  refine ⟨tail, ?_, hm⟩
+  unfold parseSource
+  rw [hl]
+  simp only
+  unfold parseFile
+  simp only [StateT.run, FileParser.fuelFor, FileParser.exprFuel, Parser.fuelFor]
+  rw [hr]
+  simp only [hnl, NodeList.toList, List.nil_append]
+
+end
+
+/-! ### Non-vacuity (text and comments; the print commands of C17d's examples fit in the same way) -/
+
+section
+open SoyVerif.Props.C15c (ctextNodes)
+open SoyVerif.Model.FileParser (Node parseSource)
+open SoyVerif.Spec (joinLines)
+
+/-- non-vacuity: `t /* x */ b⏎ c /*y*/` — the text between the two comments is trimmed on both sides -/
+def xexBody : XBody := [.text [116, 32], .cmt [32, 120, 32], .text [32, 98, 10, 32, 99, 32], .cmt [121]]
+
+theorem xexBody_wf (ff : UInt64 → Bytes) : WFX ff xexBody := by
+  simp only [xexBody, WFX, List.head?_cons, Option.mem_def, Option.some.injEq, forall_eq', XPiece.isText, XPiece.isCmt,
+    and_true, true_and, forall_const]
+  refine ⟨?_, ?_, ?_, ?_, ?_, ?_⟩ <;> decide
+
+theorem xexBody_spec (ff : UInt64 → Bytes) (pf : Bytes → Option UInt64) (LT : LexTableOK) (T : TableOK) :
+    ∃ p1 p2, parseSource pf [116, 32, 47, 42, 32, 120, 32, 42, 47, 32, 98, 10, 32, 99, 32, 47, 42, 121, 42, 47] =
+      .ok [.rawText p1 [116], .rawText p2 [98, 32, 99]] := by
+  obtain ⟨_, nl, hp, hm⟩ := body_source_spec_cmds_comments ff pf LT T xexBody (xexBody_wf ff) (by simp [xexBody, CanonX])
+  have hsrc : srcOfX ff xexBody =
+      [116, 32, 47, 42, 32, 120, 32, 42, 47, 32, 98, 10, 32, 99, 32, 47, 42, 121, 42, 47] := by rfl
+  have hd := C15c.cexBody_dropped
+  have j1 : joinLines [116, 32] false true = [116] := by rfl
+  have j2 : joinLines [32, 98, 10, 32, 99, 32] true true = [98, 32, 99] := by rfl
+  rw [hsrc] at hp
+  simp only [xexBody, NodesMatchX, nextIsCmt, List.head?_cons, XPiece.isCmt, ctextNodes, hd.1, hd.2, j1, j2] at hm
+  obtain ⟨p1, r1, h1, p2, r2, h2, h3⟩ := hm
+  refine ⟨p1, p2, ?_⟩
+  rw [hp, h1, h2, h3]
+  simp
 
 end
 end SoyVerif.Props.C15d
